@@ -222,6 +222,131 @@ func runC12case(t *vf.T, c c12case) {
 					t.Count("concurrent_scan_groups", 1)
 				}
 				doScan(op.R, r, k, fmt.Sprintf("(step %d)", oi))
+			case "rediscard":
+				// R (a result with combining tasks, slowed down) has been discarded; a Func over it
+				// recomputes it, and while the consumer side of the recomputation is running, R is
+				// discarded again: the tasks that have not yet opened their (combined) inputs find
+				// them gone. They must be treated as lost and recomputed, not as failed.
+				sp := *op.Spec
+				sp.Run = fmt.Sprintf("%s-rd%d", run, oi)
+				want, _, err := evalSpec(&sp, []*rel{r.want, r.want})
+				if err != nil {
+					return
+				}
+				mu.Lock()
+				r.damage()
+				mu.Unlock()
+				r.res.Discard(bgctx)
+				// the combiner of the base program's reduce (node 1) is called by the producer tasks
+				// and then by the consumer tasks: the second discard comes when K percent of the calls
+				// of one evaluation have been made again
+				node := 1
+				before := callsOf(base.Run, node)
+				target := before + before*int64(op.K)/100
+				dDone := make(chan runOutcome, 1)
+				go func() { dDone <- runSpec(ls, sp, [2]bigslice.Slice{r.res, r.res}, true, 120*time.Second) }()
+				seen := false
+				for i := 0; i < 3000; i++ {
+					if callsOf(base.Run, node) >= target {
+						seen = true
+						break
+					}
+					time.Sleep(2 * time.Millisecond)
+				}
+				r.res.Discard(bgctx)
+				t.Count("discards", 2)
+				if seen {
+					t.Count("discards_during_the_recomputation_of_the_discarded_result", 1)
+				}
+				o := <-dDone
+				switch {
+				case o.TimedOut:
+					mu.Lock()
+					timedOut = true
+					mu.Unlock()
+				case o.Panic != nil:
+					violate("derive-panic exec="+ex, fmt.Sprintf("%v at %s", o.Panic, o.PanicAt))
+				case o.RunErr == nil && o.ScanErr != nil:
+					t.Count("scans_that_reported_error_after_discard_or_loss", 1)
+				case o.RunErr != nil:
+					if envLoss(true) {
+						t.Count("give_ups_after_kill", 1)
+						return
+					}
+					violate(fmt.Sprintf("derive-failed arg=discarded-during-recomputation ops=%s exec=%s", opSig(&sp), ex), fmt.Sprintf("result %d was discarded again while a Func over it was recomputing it; the Func failed instead of recomputing: %v | library log: %s", op.R, o.RunErr, logTail(12)))
+				default:
+					if d := compareResult(o.Rows, want); d != "" {
+						violate(fmt.Sprintf("derive-rows-differ ops=%s exec=%s", opSig(&sp), ex), fmt.Sprintf("Func over result %d discarded during its recomputation: %s", op.R, d))
+						return
+					}
+					t.Count("derived_runs_ok", 1)
+					t.Count("recomputations_after_discard_or_loss", 1)
+					reuse++
+				}
+			case "blockedderive":
+				// The session's only proc is held by a slow run while a Func over result R is started;
+				// R is discarded while that Func's tasks wait for the proc. They then find their input
+				// gone: it must be recomputed, the Func must succeed with the reference rows.
+				slow := Spec{Run: fmt.Sprintf("%s-slow%d", run, oi), Delay: 30000, Nodes: []PNode{
+					{Op: "const", Shards: 1, Rows: 320, Out: []string{"int", "int64"}, Salt: 9, Mod: 50},
+					{Op: "map", In: []int{0}, Out: []string{"int", "int64"}, Src: []int{0, 1}, Salt: 1}}}
+				slowDone := make(chan runOutcome, 1)
+				go func() { slowDone <- runSpec(ls, slow, [2]bigslice.Slice{}, false, 120*time.Second) }()
+				for i := 0; i < 500 && callsOf(slow.Run, 1) == 0; i++ {
+					time.Sleep(10 * time.Millisecond)
+				}
+				sp := *op.Spec
+				sp.Run = fmt.Sprintf("%s-b%d", run, oi)
+				want, _, err := evalSpec(&sp, []*rel{r.want, r.want})
+				if err != nil {
+					return
+				}
+				dDone := make(chan runOutcome, 1)
+				go func() { dDone <- runSpec(ls, sp, [2]bigslice.Slice{r.res, r.res}, true, 120*time.Second) }()
+				time.Sleep(150 * time.Millisecond)
+				stillHeld := false
+				select {
+				case so := <-slowDone:
+					slowDone <- so
+				default:
+					stillHeld = true
+				}
+				mu.Lock()
+				r.damage()
+				mu.Unlock()
+				r.res.Discard(bgctx)
+				t.Count("discards", 1)
+				if stillHeld {
+					t.Count("discards_while_a_consumer_waited_for_a_proc", 1)
+				}
+				o := <-dDone
+				so := <-slowDone
+				if so.TimedOut || o.TimedOut {
+					mu.Lock()
+					timedOut = true
+					mu.Unlock()
+					return
+				}
+				switch {
+				case o.Panic != nil:
+					violate("derive-panic exec="+ex, fmt.Sprintf("%v at %s", o.Panic, o.PanicAt))
+				case o.RunErr == nil && o.ScanErr != nil:
+					t.Count("scans_that_reported_error_after_discard_or_loss", 1)
+				case o.RunErr != nil:
+					if envLoss(true) {
+						t.Count("give_ups_after_kill", 1)
+						return
+					}
+					violate(fmt.Sprintf("derive-failed arg=discarded-while-consumer-waited ops=%s exec=%s", opSig(&sp), ex), fmt.Sprintf("result %d was discarded while the tasks of a Func over it waited for a proc; the Func failed instead of recomputing it: %v | library log: %s", op.R, o.RunErr, logTail(12)))
+				default:
+					if d := compareResult(o.Rows, want); d != "" {
+						violate(fmt.Sprintf("derive-rows-differ ops=%s exec=%s", opSig(&sp), ex), fmt.Sprintf("Func over result %d discarded while its consumer waited: %s", op.R, d))
+						return
+					}
+					t.Count("derived_runs_ok", 1)
+					t.Count("recomputations_after_discard_or_loss", 1)
+					reuse++
+				}
 			case "scanmid":
 				// a scanner is open (K rows read) when the result is discarded, and reads on: the
 				// scan must end with all rows of the result or with an error, never short and clean
@@ -455,6 +580,24 @@ func runC12(r *vf.Runner) {
 			base := Spec{Nodes: []PNode{{Op: "const", Shards: 3, Rows: 1200, Out: []string{"int", "int64"}, Salt: 3, Mod: 10}, {Op: "filter", In: []int{0}, P: 5, Salt: 2}}}
 			d := Spec{Nodes: []PNode{{Op: "arg", Arg: 0}, {Op: "reduce", In: []int{0}, Fold: "sum"}}}
 			c := c12case{Conf: conf, Base: base, Ops: []c12op{{Op: "scanmid", R: 0, K: k}, {Op: "derive", R: 0, Spec: &d}, {Op: "scan", R: 0}, {Op: "scan", R: 1}}}
+			r.Case(c, func(t *vf.T) { runC12case(t, c) })
+		}
+	}
+	// a result discarded while the tasks of a Func over it wait for the session's only proc
+	for _, conf := range []sessConf{{Kind: "local", P: 1}, {Kind: "bigmachine", P: 1, MachProcs: 1, MaxLoad: 0.95, Keepalive: 50}} {
+		for _, dop := range []PNode{{Op: "reduce", In: []int{0}, Fold: "sum"}, {Op: "reshuffle", In: []int{0}}, {Op: "map", In: []int{0}, Out: []string{"int", "int64"}, Src: []int{0, 1}, Salt: 4}} {
+			base := Spec{Nodes: []PNode{{Op: "const", Shards: 3, Rows: 129, Out: []string{"int", "int64"}, Salt: 3, Mod: 10}, {Op: "filter", In: []int{0}, P: 5, Salt: 2}}}
+			d := Spec{Nodes: []PNode{{Op: "arg", Arg: 0}, dop}}
+			c := c12case{Conf: conf, Base: base, Ops: []c12op{{Op: "blockedderive", R: 0, Spec: &d}, {Op: "scan", R: 0}, {Op: "derive", R: 0, Spec: &d}}}
+			r.Case(c, func(t *vf.T) { runC12case(t, c) })
+		}
+	}
+	// a result with combining tasks is discarded again while a Func over it recomputes it
+	for _, conf := range []sessConf{{Kind: "local", P: 1}, localP4, {Kind: "bigmachine", P: 1, MachProcs: 1, MaxLoad: 0.95, Keepalive: 50}, bmk} {
+		base := Spec{Delay: 20000, Nodes: []PNode{{Op: "const", Shards: 3, Rows: 300, Out: []string{"int", "int64"}, Salt: 3, Mod: 12}, {Op: "reduce", In: []int{0}, Fold: "sum"}}}
+		d := Spec{Nodes: []PNode{{Op: "arg", Arg: 0}, {Op: "map", In: []int{0}, Out: []string{"int", "int64"}, Src: []int{0, 1}, Salt: 4}}}
+		for _, pct := range []int{10, 50, 70, 80, 90, 97} {
+			c := c12case{Conf: conf, Base: base, Ops: []c12op{{Op: "rediscard", R: 0, K: pct, Spec: &d}, {Op: "scan", R: 0}, {Op: "derive", R: 0, Spec: &d}}}
 			r.Case(c, func(t *vf.T) { runC12case(t, c) })
 		}
 	}
